@@ -59,13 +59,34 @@ func c10(c *core.Ctx) {
 					return true
 				}
 				for _, r := range ret.Results {
-					fld := core.FieldOf(info, r)
-					if fld == nil || !covered[fld] {
-						continue
+					// an expression aliases the field's storage when it is the field itself, a (re)slice of an
+					// aliasing expression, or a local whose only definition is an aliasing expression
+					var alias func(e ast.Expr, depth int) (*types.Var, string)
+					alias = func(e ast.Expr, depth int) (*types.Var, string) {
+						e = core.Unparen(e)
+						switch v := e.(type) {
+						case *ast.SelectorExpr:
+							if fld := core.FieldOf(info, v); fld != nil && covered[fld] && namedOf(info.TypeOf(v.X)) == named {
+								return fld, ""
+							}
+						case *ast.SliceExpr:
+							if fld, _ := alias(v.X, depth); fld != nil {
+								return fld, " (a sub-slice shares the backing array)"
+							}
+						case *ast.Ident:
+							if depth < 3 {
+								if def := localDef(info, f.Decl.Body, info.Uses[v]); def != nil {
+									if fld, how := alias(def, depth+1); fld != nil {
+										return fld, how + " (through local " + v.Name + ")"
+									}
+								}
+							}
+						}
+						return nil, ""
 					}
-					if s, ok := core.Unparen(r).(*ast.SelectorExpr); ok && namedOf(info.TypeOf(s.X)) == named {
+					if fld, how := alias(r, 0); fld != nil {
 						c.Touch(f)
-						rE.Bad(f.Key+":return "+fld.Name(), ret.Pos(), "returns the internal "+fld.Name()+" of "+spec.Type+": callers iterate it after the lock is released while writers mutate it (fatal 'concurrent map iteration and map write')")
+						rE.Bad(f.Key+":return "+fld.Name(), ret.Pos(), "returns the internal "+fld.Name()+" of "+spec.Type+how+": callers iterate it after the lock is released while writers mutate it in place (fatal 'concurrent map iteration and map write' for maps; torn / shifting pages for slices)")
 					}
 				}
 				return true
